@@ -73,6 +73,7 @@ def handleTree (args : List String) : Verdict :=
           | some esc =>
           let exact := ex.startsWith "1"
           let decay := (ex.splitOn "d").length > 1
+          let rebuilt := (ex.splitOn "r").length > 1
           let tol : Rat := if exact then 0 else 1 / 100000000000
           let s := rates.sum
           let val := fun (i : Nat) => (rates.getD i 0) / s
@@ -114,7 +115,7 @@ def handleTree (args : List String) : Verdict :=
             { agree := thrOk && findOk, propOk := ok,
               msg := if ok then (if thrOk then "lookup differs from model" else s!"thresholds differ: model {thrM.take 6}")
                      else s!"valid={valid} constant={constOk} measure={measOk} p0={zeroOk} escape={escOk} leaves={permOk} measures={(List.range (min nEv 8)).map measure} want={(List.range (min nEv 8)).map val}",
-              tag := s!"tree:{if exact then "exact" else "generic"}:{if nEv % 2 == 1 then "odd" else "even"}:{if nEv == 1 then "n1" else if nEv ≤ 4 then "n2-4" else if nEv ≤ 12 then "n5-12" else "n13+"}{if decay then ":decay-event" else ""}" }
+              tag := s!"tree:{if exact then "exact" else "generic"}:{if nEv % 2 == 1 then "odd" else "even"}:{if nEv == 1 then "n1" else if nEv ≤ 4 then "n2-4" else if nEv ≤ 12 then "n5-12" else "n13+"}{if decay then ":decay-event" else ""}{if rebuilt then ":rebuilt" else ""}" }
         | _ => bad "tree queries"
       | _ => bad "tree q missing"
     | _ => bad "tree k missing"
